@@ -19,7 +19,7 @@ COEFFS = (0.0, 0.3, 0.6, 1.0)
 
 
 def configs(tier, seed):
-    return zoo.system_configs(seed, tier, all_convs=(tier == "thorough"))
+    return zoo.system_configs(seed, tier, all_convs=(tier == "thorough"), derived_metrics=True)
 
 
 def target_cov(case, q):
@@ -78,6 +78,33 @@ def check_config(cfg, acc):
         except Exception as e:  # noqa: BLE001
             viol("exception", "sample_momentum:" + type(e).__name__, repr(e)[:200], "momentum")
             continue
+        # ---- a second system object of the same class (other parameters) refreshing the momentum
+        # of a state (or a copy of it) that the first system has already worked on
+        acc.count("evaluations")
+        try:
+            cfg2 = dict(cfg, seed=cfg["seed"] + 1)
+            if cfg["family"] == "riemannian":
+                cfg2["target"] = "logcosh" if cfg["target"] != "logcosh" else "quartic"
+            case2 = zoo.build_case(cfg2)
+            S2 = case2.system
+            C2 = target_cov(case2, q)
+            tol2 = 1e-10 * (1.0 + np.max(np.abs(C2))) * np.linalg.cond(case2.metric_ref(q))
+            for how in ("same_state", "copy"):
+                cols = []
+                for i in range(d):
+                    st = zoo.mk_state(q, None)
+                    st.mom = S.sample_momentum(st, BasisRng(np.eye(d)[i]))
+                    S.h(st)
+                    st2 = st if how == "same_state" else st.copy()
+                    cols.append(np.array(S2.sample_momentum(st2, BasisRng(np.eye(d)[i])),
+                                         dtype=float))
+                L2 = np.stack(cols, 1)
+                if maxerr(L2 @ L2.T, C2) > tol2:
+                    viol("covariance", "second_system_on_" + how + "_covariance", L2 @ L2.T, C2,
+                         state=si)
+                    break
+        except Exception as e:  # noqa: BLE001
+            viol("exception", "second_system:" + type(e).__name__, repr(e)[:200], "momentum")
         # ---- correlated transition
         p0 = p if case.constraint is None else case.constraint.project_mom(
             q, p, np.linalg.inv(case.metric_ref(q)))
